@@ -7,6 +7,9 @@ pub fn dispatch(f: &[String]) -> String
     {
         "arg" => op_arg(f),
         "asm" => op_asm(f),
+        "expr" => op_expr(f),
+        "tok" => op_tok(f),
+        "lit" => op_lit(f),
         _ => format!("{{\"unknown_op\":{}}}", json::string(&f[0])),
     }
 }
@@ -186,4 +189,129 @@ pub fn op_asm(f: &[String]) -> String
     s.push_str(&format!("\"messages\":[{}]", msgs.join(",")));
     s.push('}');
     s
+}
+
+
+fn dec(b: &util::BigInt) -> String
+{
+    let hex = format!("{:x}", b);
+    let (neg, digits) = if let Some(rest) = hex.strip_prefix('-') { (true, rest.to_string()) } else { (false, hex) };
+    let mag = num_bigint::BigInt::parse_bytes(digits.as_bytes(), 16).unwrap();
+    let v = if neg { -mag } else { mag };
+    match b.size
+    {
+        Some(s) => format!("{} {}", v, s),
+        None => format!("{} -", v),
+    }
+}
+
+
+pub fn value_str(v: &expr::Value) -> String
+{
+    match v
+    {
+        expr::Value::Unknown => "unknown".to_string(),
+        expr::Value::FailedConstraint(_) => "failed".to_string(),
+        expr::Value::Void => "void".to_string(),
+        expr::Value::Integer(b) => format!("int {}", dec(b)),
+        expr::Value::String(s) => format!("str {} {}", if s.utf8_contents.is_empty() { "-".to_string() } else { json::hex(s.utf8_contents.as_bytes()) }, s.encoding),
+        expr::Value::Bool(b) => format!("bool {}", b),
+        expr::Value::ExprBuiltInFunction(n) => format!("builtin {}", n),
+        expr::Value::AsmBuiltInFunction(n) => format!("asmbuiltin {}", n),
+        expr::Value::Function(i) => format!("fn {}", i),
+    }
+}
+
+
+pub fn expr_sexp(e: &expr::Expr) -> String
+{
+    match e
+    {
+        expr::Expr::Literal(_, v) => format!("(lit {})", value_str(v)),
+        expr::Expr::Variable(_, level, path) => format!("(var {} {})", level, path.join(".")),
+        expr::Expr::UnaryOp(_, _, op, inner) => format!("(un {:?} {})", op, expr_sexp(inner)),
+        expr::Expr::BinaryOp(_, _, op, l, r) => format!("(bin {:?} {} {})", op, expr_sexp(l), expr_sexp(r)),
+        expr::Expr::TernaryOp(_, c, t, f) => format!("(tern {} {} {})", expr_sexp(c), expr_sexp(t), expr_sexp(f)),
+        expr::Expr::Slice(_, _, hi, lo, inner) => format!("(slice {} {} {})", expr_sexp(hi), expr_sexp(lo), expr_sexp(inner)),
+        expr::Expr::SliceShort(_, _, size, inner) => format!("(sshort {} {})", expr_sexp(size), expr_sexp(inner)),
+        expr::Expr::Block(_, es) => format!("(block{})", es.iter().map(|e| format!(" {}", expr_sexp(e))).collect::<String>()),
+        expr::Expr::Call(_, f, args) => format!("(call {}{})", expr_sexp(f), args.iter().map(|e| format!(" {}", expr_sexp(e))).collect::<String>()),
+        expr::Expr::Asm(_, _) => "(asm)".to_string(),
+    }
+}
+
+
+fn first_error(report: &diagn::Report) -> String
+{
+    for m in report.verif_messages()
+    {
+        if m.kind == diagn::MessageKind::Error
+        {
+            // innermost message text
+            let mut cur = m;
+            while let Some(inner) = cur.inner.iter().find(|i| i.kind == diagn::MessageKind::Error) { cur = inner; }
+            return cur.descr.clone();
+        }
+    }
+    "?".to_string()
+}
+
+
+/// expr <text_hex> : expr::parse on a fresh walker, then Expr::eval with the dummy provider
+fn op_expr(f: &[String]) -> String
+{
+    let text = json::unhex_str(&f[1]);
+    let mut report = diagn::Report::new();
+    let mut walker = syntax::Walker::new(&text, 0, 0);
+    let parsed = expr::parse(&mut report, &mut walker);
+    match parsed
+    {
+        Err(()) => format!("{{\"parse_err\":{}}}", json::string(&first_error(&report))),
+        Ok(e) =>
+        {
+            walker.skip_ignorable();
+            let over = walker.is_over();
+            let tree = expr_sexp(&e);
+            let mut report = diagn::Report::new();
+            let res = e.eval(&mut report, &mut expr::dummy_eval_query);
+            let r = match res
+            {
+                Ok(v) => format!("ok {}", value_str(&v)),
+                Err(()) => format!("err {}", first_error(&report)),
+            };
+            format!("{{\"tree\":{},\"over\":{},\"result\":{}}}", json::string(&tree), over, json::string(&r))
+        }
+    }
+}
+
+
+fn kind_name(k: syntax::TokenKind) -> String { format!("{:?}", k) }
+
+
+/// tok <text_hex> : repeated decide_next_token over the text (byte lengths)
+fn op_tok(f: &[String]) -> String
+{
+    let text = json::unhex_str(&f[1]);
+    let mut i = 0;
+    let mut out: Vec<String> = Vec::new();
+    while i < text.len()
+    {
+        let (kind, len) = syntax::decide_next_token(&text[i..]);
+        out.push(format!("{}:{}", kind_name(kind), len));
+        i += len.max(1);
+    }
+    format!("{{\"toks\":{}}}", json::string(&out.join(" ")))
+}
+
+
+/// lit <text_hex> : syntax::excerpt_as_bigint
+fn op_lit(f: &[String]) -> String
+{
+    let text = json::unhex_str(&f[1]);
+    let mut report = diagn::Report::new();
+    match syntax::excerpt_as_bigint(Some(&mut report), diagn::Span::new_dummy(), &text)
+    {
+        Ok(b) => format!("{{\"ok\":{}}}", json::string(&dec(&b))),
+        Err(()) => format!("{{\"err\":{}}}", json::string(&first_error(&report))),
+    }
 }
